@@ -898,7 +898,7 @@ MANIFEST = {
     "(success, unsuccessful dict, tuple, None, ConnectionTimeout, ConnectionError, socket.timeout, HTTP 408, other API error, SerializationError, bare TransportError) "
     "up to length 5 (quick) / 6 (thorough) with sampled retry parameters, up to length 2 / 3 with the full grid of 1512 parameter combinations, plus seeded random sequences up to "
     "length 12 and retry-until-success runs of up to 64 attempts; a reference interpreter of the statement is compared in lock-step (attempt count, waits on the virtual clock, "
-    "arguments, identity of the result / exception). Every second invocation is repeated on a long-lived Retry instance that has served the preceding invocations (Rally registers one instance per operation type): a deviation that a fresh instance does not show is a dependence on earlier invocations. Every operation docs/track.rst marks as retryable is driven through its registered runner. Holds on the sequences enumerated, not beyond.",
+    "arguments, identity of the result / exception). Groups of up to three invocations also run concurrently on one instance, and one case in 400 runs a cluster-health task through rally's real executor, registered runner, asynchronous client and elastic-transport against the simulated node (HTTP answers whose error bodies come in six shapes). Every second invocation is repeated on a long-lived Retry instance that has served the preceding invocations (Rally registers one instance per operation type): a deviation that a fresh instance does not show is a dependence on earlier invocations. Every operation docs/track.rst marks as retryable is driven through its registered runner. Holds on the sequences enumerated, not beyond.",
     "note": "Trusts the 30-line reference interpreter, the outcome classification stated in the assumptions (408 = timeout; non-dict = success) and the virtual clock of the loop. "
     "Known finding: non-connection TransportErrors are retried without wait.",
     "technique": "runtime monitor: reference-model oracle in lock-step with the real retry loop over an exhaustively enumerated fault alphabet, virtual time",
